@@ -24,6 +24,15 @@ var taskStatuses = []string{"Hold", "Do", "Doing", "Done", "Abort", "Undo", "Und
 var waitVals = []int{0, 1, 24, 48, 72, 100, 150}
 var maxVals = []int{0, 1, 2, 3, 500}
 
+// {representative w, weight}: Tick 0, NewChange 6, NewTask 12, AddTask 20, WaitFor 28, NewLane 33, JoinLane 36,
+// SetStatus 40, SetToWait 58, ChangeSetStatus 62, TaskSet/Clear 66, ChangeSet 72, StateSet 76, Log 79, At 83,
+// SetProgress 85, SetClean 87, AddNotice 89, warnings 92, Register 95, Prune 96, SaveReload 98
+var mixAll = [][2]int{{0, 6}, {6, 5}, {12, 9}, {20, 10}, {28, 6}, {33, 2}, {36, 3}, {40, 18}, {58, 4}, {62, 3}, {66, 5}, {72, 4},
+	{76, 2}, {79, 4}, {83, 2}, {85, 2}, {87, 2}, {89, 4}, {92, 3}, {95, 1}, {96, 4}, {98, 5}}
+var mixPrune = [][2]int{{0, 12}, {6, 10}, {12, 10}, {20, 14}, {28, 3}, {33, 1}, {36, 2}, {40, 25}, {58, 3}, {72, 5}, {89, 2},
+	{92, 2}, {95, 3}, {96, 12}, {98, 2}}
+var mixStart = [][2]int{{0, 1}, {6, 4}, {12, 4}, {89, 1}, {92, 1}}
+
 func (g *gen) pick(xs []int) int       { return xs[g.r.Intn(len(xs))] }
 func (g *gen) picks(xs []string) string { return xs[g.r.Intn(len(xs))] }
 
@@ -142,9 +151,25 @@ func (g *gen) next() (Op, bool) {
 	defer h.st.Unlock()
 	tids, cids := g.taskIDs(), g.changeIDs()
 	anyTask := func() (int, *state.Task) { id := g.pick(tids); return id, h.tasks[id] }
-	w := r.Intn(100)
+	// weighted choice of an op family; w is a representative of the family's range in the switch below
+	mix := mixAll
 	if g.prune {
-		w = []int{0, 3, 8, 14, 20, 30, 31, 60, 90, 93, 96}[r.Intn(11)]
+		mix = mixPrune
+	}
+	if len(cids) == 0 || len(tids) == 0 && r.Intn(2) == 0 {
+		mix = mixStart
+	}
+	total := 0
+	for _, m := range mix {
+		total += m[1]
+	}
+	x, w := r.Intn(total), 0
+	for _, m := range mix {
+		if x < m[1] {
+			w = m[0]
+			break
+		}
+		x -= m[1]
 	}
 	switch {
 	case w < 6:
@@ -211,6 +236,9 @@ func (g *gen) next() (Op, bool) {
 		}
 		return Op{"TaskSet", M{"t": id, "k": g.picks(Keys), "v": g.picks(dataVals)}}, true
 	case w < 76 && len(cids) > 0:
+		if g.prune {
+			return Op{"ChangeSet", M{"c": g.pick(cids), "k": g.picks(Keys[:2]), "v": g.picks([]string{"true", "true", "false", ""})}}, true
+		}
 		return Op{"ChangeSet", M{"c": g.pick(cids), "k": g.picks(Keys), "v": g.picks(dataVals)}}, true
 	case w < 79:
 		return Op{"StateSet", M{"k": g.picks(Keys), "v": g.picks(dataVals)}}, true
@@ -265,6 +293,10 @@ func (g *gen) next() (Op, bool) {
 	case w < 96:
 		return Op{"Register", M{"k": g.picks(Keys[:2])}}, true
 	case w < 98:
+		if h.nowH < H-1 || h.nowH > H+1 {
+			// Prune reads the real clock while the abort it does stamps mocked times: keep them together
+			return Op{"Tick", M{"h": H - 1 + r.Intn(3)}}, true
+		}
 		if g.pruneOK() {
 			start := 0
 			if r.Intn(2) == 0 {
